@@ -31,7 +31,7 @@ var _ time.Time
 //@ iface Message.Date(self Message) (r time.Time)
 //@   pure
 //@ iface Message.Source(self Message) (r io.ReadCloser, err error)
-//@   ensures err == nil ==> r != nil
+//@   ensures (r != nil) != (err != nil)
 
 // ---------------------------------------------------------------------------------------------
 // Ghost call log of a Store, owned by the interface contracts below: the mailboxes and ids passed
@@ -67,6 +67,14 @@ func Ghost_addIDAt(s Store, j int) string   { return vcSeqAt(ghost_addIDs(s), j)
 //@   ensures forall j int :: { vcSeqAt(ghost_addBoxes(self), j) } j < old(ghost_nadded(self)) ==> vcSeqAt(ghost_addBoxes(self), j) == old(vcSeqAt(ghost_addBoxes(self), j))
 //@   ensures forall j int :: { vcSeqAt(ghost_addMsgs(self), j) } j < old(ghost_nadded(self)) ==> vcSeqAt(ghost_addMsgs(self), j) == old(vcSeqAt(ghost_addMsgs(self), j))
 //@   ensures forall j int :: { vcSeqAt(ghost_addIDs(self), j) } j < old(ghost_nadded(self)) ==> vcSeqAt(ghost_addIDs(self), j) == old(vcSeqAt(ghost_addIDs(self), j))
+
+// GetMessage: a message or an error, never neither (a message that does not exist is an error:
+// storage.ErrNotExist).  This is the contract the property states; both back-ends must refine it.
+//@ iface Store.GetMessage(self Store, mailbox string, id string) (m Message, err error)
+//@   ensures (m != nil) != (err != nil)
+
+//@ iface Store.MarkSeen(self Store, mailbox string, id string) (err error)
+//@ iface Store.PurgeMessages(self Store, mailbox string) (err error)
 
 // GetMessages returns a fresh slice of existing messages.
 //@ iface Store.GetMessages(self Store, mailbox string) (r []Message, err error)
